@@ -15,6 +15,26 @@ CHECKS = {
              'blocks closed LIFO. Trusted: TLC, the TLA+ value parser, harness/adapters/hub.py.',
         technique='TLA+ spec + TLC; behaviour replay into real Hub (spec->code conformance)',
         design='7/C07'),
+    'C06': dict(
+        text='Collection.tla states what C06 requires as a function of the abstract collection/group state; TLC enumerates every '
+             'history to a depth bound (append, remove, re-append, new/remove group, set state/label/colour, merge, clear, '
+             'session save+restore, hub delay blocks) and random deep walks; each is executed on a real DataCollection and the '
+             'projection (dc.data, subset_groups, d.subsets, g.subsets, masks, labels, colours) compared after every step.',
+        note='Bounded: 3 datasets + merge results, <=4 groups, depth 6-7 exhaustive, 25-40 random. Membership is compared when no '
+             'hub delay block is open; datasets outside the collection are unconstrained. Trusted: TLC, value parser, '
+             'harness/adapters/collection.py.',
+        technique='TLA+ spec + TLC; behaviour replay into real DataCollection (spec->code conformance)',
+        design='7/C06'),
+    'C13': dict(
+        text='Commands.tla (on top of Collection.tla) defines undo as restoring the snapshot taken before the command and redo '
+             'as re-execution; TLC checks this on the spec and enumerates every do/undo/redo word to a depth plus random deep '
+             'words over AddData, RemoveData, ApplySubsetState (all override modes) and ApplyROI; each word runs on a real '
+             'Session/CommandStack and datasets, groups, masks on every dataset, edit-subset choice and stack depths are '
+             'compared after every step.',
+        note='Bounded: 2-3 datasets, <=6 groups, MAX_UNDO set to the model bound (2-3). Collection compared as a set; group '
+             'labels/colours not compared. Private reads: CommandStack._command_stack/_undo_stack lengths.',
+        technique='TLA+ spec + TLC; behaviour replay into real Session/CommandStack (spec->code conformance)',
+        design='7/C13'),
 }
 
 NOT_APPLICABLE = {}
